@@ -55,6 +55,15 @@ Definition policy_of (n : Z) : mask_policy :=
   if Z.eqb n 0 then MaskOff else if Z.eqb n 1 then MaskMissingTemp
   else if Z.eqb n 2 then MaskNonFiniteTemp else MaskDropped.
 
+(* which masking behaviours satisfy the C07 statement over the property's quantifier (usage a number or missing,
+   temperature anything) — Properties/C07.v proves  C07_statement_q pol <-> mode_satisfies_statement pol = true.
+   The harness evaluates it for the behaviour it detected on the implementation. *)
+Definition mode_satisfies_statement (pol : mask_policy) : bool :=
+  match pol with
+  | MaskNonFiniteTemp | MaskDropped => true
+  | MaskOff | MaskMissingTemp => false
+  end.
+
 (* one case: (policy, has_obs, sub-models, input rows, expected)
    expected = (per-row pattern [(ts, kind observed, kind predicted)] of the un-aggregated frame,
                [(sum observed, sum predicted)] for every frame returned: the un-aggregated one and, for billing
